@@ -5,13 +5,18 @@ path where the schema has foreign keys, by the child-side FK validation; (b) eve
 truncation site reachable from DELETE/TRUNCATE is preceded by the parent-side check;
 (c) the ReferentialAction dispatch in delete::integrity and update::foreign_keys is exhaustive
 without a wildcard, NO ACTION/RESTRICT arms reject, and the delete-side CASCADE/SET NULL/SET
-DEFAULT arms call the action of the same name.  Does NOT decide key comparison semantics."""
+DEFAULT arms call the action of the same name; (d) cascade_delete re-checks every child row it is
+about to delete (multi-level cascades) in a loop over the same rows, on every path; (e) hash-index
+probes made by the FK validators are keyed in the index's column order; (f) per-column vectors
+consumed by position are filled on every iteration; (g) "key changed" tests are existential.
+Does NOT decide key comparison semantics."""
 from ..engine.callgraph import CallGraph
 from ..engine.paths import Precede, switch_target, _uses_local
 from ..engine.facts import callee_name
 from ..engine.cfg import op_place, defs_of
 from ..engine.tables import enum_switches, arm_region, region_is_err_only
 from . import matrix as M
+import re
 
 UNITS = M.EXECUTOR_UNITS
 EX = 'vibesql_executor::'
@@ -173,3 +178,42 @@ def run(ctx):
     ctx.instance('c/cascade_delete/recursion')
     if EX + 'delete::integrity::check_no_child_references' not in {callee_name(t) for _, t in cd.calls()}:
         ctx.finding('c/cascade_delete/recursion', 'cascade_delete no longer checks grandchildren (check_no_child_references) before deleting child rows', cd.loc)
+
+
+    # ---------------------------------------------------------------- (d) multi-level cascade
+    from ..engine.paths import search
+    from ..engine.linear import Encoder
+    from . import shared
+    ctx.rule('C12.d', 'delete::integrity::cascade_delete: the loop that deletes the collected child rows is preceded on every path by a loop '
+             'over the same collection that calls check_no_child_references for each of them (grandchildren are handled before their '
+             'parents disappear)')
+    cd = ctx.fn(EX + 'delete::integrity::cascade_delete')
+    enc = Encoder(prog, cd)
+    loop_of = enc.loop_of_block()
+    chk = [i for i, t in cd.calls() if callee_name(t) == EX + 'delete::integrity::check_no_child_references']
+    dels = [i for i, t in cd.calls() if callee_name(t) in M.ROW_DELETE]
+    ctx.require(dels, 'cascade_delete: row deletion site not found')
+    ctx.instance('d/cascade_delete', {'rule': 'C12.d', 'recursive_checks': len(chk), 'delete_sites': len(dels)})
+    bad = None
+    if not chk:
+        bad = 'no recursive check_no_child_references call is left'
+    else:
+        rc = {enc.loop_root(loop_of[b]) if loop_of.get(b) is not None else None for b in chk}
+        rd = {enc.loop_root(loop_of[b]) if loop_of.get(b) is not None else None for b in dels}
+        if rc != rd or None in rc:
+            bad = f'the recursive check ranges over {sorted(map(str, rc))}, the deletion over {sorted(map(str, rd))}'
+        else:
+            reached, _ = search(cd, [0], set(chk), loop_model=True)
+            if reached & set(dels):
+                bad = 'the deletion loop can be reached without passing the recursive check'
+    if bad:
+        ctx.finding('d/cascade_delete/recursion', f'cascade_delete: {bad}: rows that reference the deleted child rows (second level of an '
+                    'ON DELETE CASCADE chain, e.g. a self-referencing table) are left dangling', cd.loc)
+
+    # ---------------------------------------------------------------- (e) (f) (g) shared rules in the FK modules
+    FKMOD = re.compile(r"^vibesql_executor::(insert::foreign_keys::|update::foreign_keys::|delete::integrity::|"
+                       r"insert::row_validator::RowValidator::<'a>::validate_foreign_keys)")
+    shared.hash_key_rule(ctx, 'C12.e', lambda f: bool(FKMOD.match(f.nice)), exceptions=shared.PREEXTRACTED)
+    shared.key_order_rule(ctx, 'C12.e2')
+    shared.aligned_rule(ctx, 'C12.f', lambda f: bool(FKMOD.match(f.nice)), floor=1)
+    shared.quantifier_rule(ctx, 'C12.g', lambda f: f.nice.startswith('vibesql_executor::update::') or f.nice.startswith('vibesql_executor::delete::'))
